@@ -103,6 +103,12 @@ def build_tail(c, scale=1.0):
         ang = np.where(inside, th, rng.uniform(-np.pi, np.pi, nf))
         a1[i] = c["r1"][i] * np.cos(ang)
         b1[i] = c["r1"][i] * np.sin(ang)
+        if c["theta"][i] % 90.0 == 0.0:
+            # waves exactly along an axis: the moments hold exact zeros (a1 == 0 for 90 / 270 degrees), so the direction
+            # is exactly a multiple of 90 and the conventions are exercised on their branch points
+            ex = {0.0: (1.0, 0.0), 90.0: (0.0, 1.0), 180.0: (-1.0, 0.0), 270.0: (0.0, -1.0)}[c["theta"][i] % 360.0]
+            a1[i] = np.where(inside, c["r1"][i] * ex[0], a1[i])
+            b1[i] = np.where(inside, c["r1"][i] * ex[1], b1[i])
         if c["nan_pre_tail"] and start > 1:
             e[i, rng.integers(0, start)] = np.nan
         if c.get("all_nan_member") == i:
